@@ -420,7 +420,7 @@ theorem unterminated_last_line_duplicated {α} (parse : Str → Option α) (d : 
   readRows_unterminated parse d ls last h hl hne
 
 /-- one sample per non-empty line holds for every text in which each line is terminated -/
-theorem one_sample_per_line_partial {α} (parse : Str → Option α) (d : Char) (ls : List Str)
+theorem one_sample_per_line_terminated {α} (parse : Str → Option α) (d : Char) (ls : List Str)
     (h : ∀ l ∈ ls, '\n' ∉ l) (b : Bool) :
     readRowsWith b parse d (joinLines ls) = (ls.filter (fun l => !l.isEmpty)).map (lineValues parse d) :=
   readRowsWith_joinLines parse d ls h b
